@@ -891,14 +891,9 @@ func func_RemoveKeysByRegex(rtParams FunctionParameterTypes, val any) (any, erro
 		return nil, fmt.Errorf("regular expression is invalid")
 	}
 
-	doForMapPerKey(val, func(keyAsString string, keyAsValue, mapAsValue reflect.Value) {
-		if exp.MatchString(keyAsString) {
-			// This deletes the key if it matches the regex
-			mapAsValue.SetMapIndex(keyAsValue, reflect.Value{})
-		}
+	return removeKeysBy(val, func(keyAsString string) bool {
+		return exp.MatchString(keyAsString)
 	})
-
-	return nil, fmt.Errorf("value is not a map")
 }
 
 const FT_RemoveKeysByPrefix FT_FunctionType = "RemoveKeysByPrefix"
@@ -913,14 +908,9 @@ func func_RemoveKeysByPrefix(rtParams FunctionParameterTypes, val any) (any, err
 		return nil, err
 	}
 
-	doForMapPerKey(val, func(keyAsString string, keyAsValue, mapAsValue reflect.Value) {
-		if strings.HasPrefix(keyAsString, prefixParam) {
-			// This deletes the key if it matches the regex
-			mapAsValue.SetMapIndex(keyAsValue, reflect.Value{})
-		}
+	return removeKeysBy(val, func(keyAsString string) bool {
+		return strings.HasPrefix(keyAsString, prefixParam)
 	})
-
-	return nil, fmt.Errorf("value is not a map")
 }
 
 const FT_RemoveKeysBySuffix FT_FunctionType = "RemoveKeysBySuffix"
@@ -935,14 +925,36 @@ func func_RemoveKeysBySuffix(rtParams FunctionParameterTypes, val any) (any, err
 		return nil, err
 	}
 
-	doForMapPerKey(val, func(keyAsString string, keyAsValue, mapAsValue reflect.Value) {
-		if strings.HasSuffix(keyAsString, prefixParam) {
-			// This deletes the key if it matches the regex
+	return removeKeysBy(val, func(keyAsString string) bool {
+		return strings.HasSuffix(keyAsString, prefixParam)
+	})
+}
+
+// removeKeysBy returns a copy of the map without the keys that match; the
+// caller's map is left untouched.
+func removeKeysBy(val any, match func(keyAsString string) bool) (any, error) {
+	v := reflect.ValueOf(val)
+	switch v.Kind() {
+	case reflect.Pointer, reflect.Interface:
+		v = v.Elem()
+	}
+
+	if v.Kind() != reflect.Map {
+		return nil, fmt.Errorf("value is not a map")
+	}
+
+	out := reflect.MakeMapWithSize(v.Type(), v.Len())
+	for _, e := range v.MapKeys() {
+		out.SetMapIndex(e, v.MapIndex(e))
+	}
+
+	doForMapPerKey(out.Interface(), func(keyAsString string, keyAsValue, mapAsValue reflect.Value) {
+		if match(keyAsString) {
 			mapAsValue.SetMapIndex(keyAsValue, reflect.Value{})
 		}
 	})
 
-	return nil, fmt.Errorf("value is not a map")
+	return out.Interface(), nil
 }
 
 const FT_Not FT_FunctionType = "Not"
